@@ -12,3 +12,4 @@ INVARIANT SplitIsEqualAndConservativeInv
 INVARIANT EveryAmpConfiguredInv
 INVARIANT EveryFiberHasConnectorsInv
 INVARIANT SpanAtLeastPaddingInv
+INVARIANT UserAttenuatorKeptInv
